@@ -73,6 +73,11 @@ func cliReplay(prop string) func(c *Ctx, p json.RawMessage) {
 // is only generated for a slot that was started earlier) and explores each with
 // the given epilogues at preemption bound 0.
 func cliHistories(c *Ctx, prop string, opts cliOpts, alpha []cliEv, depth int, epilogues []string, tag string) {
+	cliHistoriesFrom(c, prop, opts, nil, alpha, depth, epilogues, tag)
+}
+
+// cliHistoriesFrom is cliHistories after a fixed sequential prefix (a start state other than the initial one).
+func cliHistoriesFrom(c *Ctx, prop string, opts cliOpts, setup []cliEv, alpha []cliEv, depth int, epilogues []string, tag string) {
 	var hist []cliEv
 	var item int64
 	var rec func()
@@ -94,7 +99,7 @@ func cliHistories(c *Ctx, prop string, opts cliOpts, alpha []cliEv, depth int, e
 					if closed && ep != epilogues[0] {
 						continue // epilogues differ only for histories that did not close
 					}
-					sc := cliScenario{Opts: opts, Threads: [][]cliEv{append([]cliEv(nil), hist...)}, Sequential: true, Epilogue: ep}
+					sc := cliScenario{Opts: opts, Setup: setup, Threads: [][]cliEv{append([]cliEv(nil), hist...)}, Sequential: true, Epilogue: ep}
 					cliExplore(c, prop, sc, 0, false, tag)
 					c.Res.Extra["sum_histories"] = c.extraNum("sum_histories") + 1
 				}
@@ -108,6 +113,11 @@ func cliHistories(c *Ctx, prop string, opts cliOpts, alpha []cliEv, depth int, e
 		}
 		started := map[int]bool{}
 		closed := false
+		for _, e := range setup {
+			if e.K == "start" || e.K == "do" {
+				started[e.I] = true
+			}
+		}
 		for _, e := range hist {
 			if e.K == "start" || e.K == "do" {
 				started[e.I] = true
@@ -143,10 +153,12 @@ func init() {
 				{K: "resp", I: 0}, {K: "resp", I: 1}, {K: "resp", I: 2},
 				{K: "unknown"}, {K: "garbage", Arg: 0},
 				{K: "tick", Arg: 0}, {K: "tick", Arg: 1}, {K: "tick", Arg: 2},
-				{K: "failwrite"}, {K: "close"},
+				{K: "failwrite"}, {K: "failagent"}, {K: "close"},
 			}
 			cliHistories(c, "C10", cliOpts{}, alpha, depth, []string{"drain+close", "close"}, "H")
 			cliHistories(c, "C10", cliOpts{NoRetransmit: true, Fallback: true}, alpha, depth-1, []string{"drain+close", "close"}, "Hnr")
+			// from a non-initial state: A was answered once already (so late / duplicate responses to A exist)
+			cliHistoriesFrom(c, "C10", cliOpts{}, []cliEv{{K: "start", I: 0}, {K: "resp", I: 0}}, alpha, depth-1, []string{"drain+close"}, "Hafter")
 			for i, sc := range cliConcurrentScenarios() {
 				cliExplore(c, "C10", sc, pb, true, fmt.Sprintf("S%d", i+1))
 			}
